@@ -109,7 +109,7 @@ def gen(seed, tier, want=None):
         if n == 3:
             # two families of block schedules: P^i Q* P^j R* P*  (P paused twice, Q and R run to completion in between)
             # and P^i Q^j P* R* Q*  (P and Q each paused once), for all role assignments
-            imax, jmax, jstep = (14, 10, 2) if tier == 'quick' else (24, 16, 1)
+            imax, jmax, jstep = (18, 10, 2) if tier == "quick" else (24, 16, 1)
             for P, Q, R in itertools.permutations(range(3)):
                 for i in range(0, imax + 1):
                     for j in range(0, jmax + 1, jstep):
@@ -121,11 +121,11 @@ def gen(seed, tier, want=None):
                 # late split points of P (the tail of a call: unlock and whatever follows it) against an early pause of Q
                 if acts[P][0] != 1 and acts[Q][0] != 1:
                     # (two calls and a delivery: every pause point of the second call against every late split of the first)
-                    for i in range(imax + 1, 34):
+                    for i in range(min(imax, 14) + 1, 34):
                         for j in range(0, 22):
                             scen.append(Scenario(name, disp, setup, acts, [P] * i + [Q] * j + [P] * 70 + [R] * 70 + [Q] * 70))
                 elif acts[P][0] != 1:
-                    for i in range(imax + 1, 34):
+                    for i in range(min(imax, 14) + 1, 34):
                         for j in range(0, jmax + 5, 2):
                             scen.append(Scenario(name, disp, setup, acts, [P] * i + [Q] * j + [P] * 70 + [R] * 70 + [Q] * 70))
         if n == 4:
